@@ -108,14 +108,26 @@ package core
 //@   option trusted
 //@   modifies nothing
 
+// What the two indexes answer (ghost, changed only by insertion and removal): hashKnown/hashHeight - the hash
+// index has a block with this hash, and its height; hgtKnown/hgtPv/hgtHash - the height index has a header at
+// this height, its prove value and its hash as an unsigned integer.
+//@ ghost hashKnown (Array Bytes Bool)
+//@ ghost hashHeight (Array Bytes (_ BitVec 64))
+//@ ghost hgtKnown (Array (_ BitVec 64) Bool)
+//@ ghost hgtPv (Array (_ BitVec 64) Int)
+//@ ghost hgtHash (Array (_ BitVec 64) Int)
+
 //@ func blockChain.queryBlockHeaderByHash
 //@   option trusted
-//@   ensures result != nil ==> fresh(result)
+//@   ensures (result != nil) == @select(ghost(hashKnown), bytes(hash))
+//@   ensures result != nil ==> fresh(result) && result.Height == @select(ghost(hashHeight), bytes(hash))
 //@   modifies nothing
 
 //@ func blockChain.QueryBlockHeaderByHeight
 //@   option trusted
+//@   ensures istype(height, uint64) ==> (result != nil) == @select(ghost(hgtKnown), unbox(height, uint64))
 //@   ensures result != nil ==> fresh(result) && result.ProveValue != nil
+//@   ensures result != nil && istype(height, uint64) ==> big(result.ProveValue) == @select(ghost(hgtPv), unbox(height, uint64)) && @beval(bytes(result.Hash)) == @select(ghost(hgtHash), unbox(height, uint64))
 //@   modifies nothing
 
 // Block insertion is a write-ahead protocol (C05): the add-intent mark is written first, every index / state /
@@ -192,13 +204,13 @@ package core
 //@   requires [wf] remoteBlock.Header != nil
 //@   ensures [done]   result0 == types.AddBlockSucc ==> !ghost(addmark) && ghost(headmoved) && chain.latestBlock == remoteBlock.Header
 //@   ensures [failed] result0 != types.AddBlockSucc ==> ghost(headmoved) == old(ghost(headmoved)) && chain.latestBlock == old(chain.latestBlock)
-//@   modifies chain.latestBlock, chain.requestIds, ghost(addmark), ghost(headmoved), ghost(stver)
+//@   modifies chain.latestBlock, chain.requestIds, ghost(addmark), ghost(headmoved), ghost(stver), ghost(hashKnown), ghost(hashHeight), ghost(hgtKnown), ghost(hgtPv), ghost(hgtHash)
 
 //@ func blockChain.removeFromCommonAncestor
 //@   option trusted
 //@   requires chain != nil
 //@   ensures chain.latestBlock != nil
-//@   modifies chain.latestBlock
+//@   modifies chain.latestBlock, ghost(hashKnown), ghost(hashHeight), ghost(hgtKnown), ghost(hgtPv), ghost(hgtHash)
 
 // A coming block that does not extend the head and belongs to a lighter chain leaves the head alone: lower
 // cumulative QN, or equal QN with the local block after the fork point winning the tie-break.
@@ -206,3 +218,5 @@ package core
 //@   property C05
 //@   requires chain != nil && chain.latestBlock != nil && coming != nil && coming.Header != nil && coming.Header.ProveValue != nil && logger != nil
 //@   ensures [lighter]  old(coming.Header.PreHash != chain.latestBlock.Hash && coming.Header.TotalQN < chain.latestBlock.TotalQN) ==> chain.latestBlock == old(chain.latestBlock) && result != types.AddBlockSucc
+//@   # equal cumulative QN: the local block right after the fork point decides (prove value, then hash)
+//@   ensures [tie]      old(coming.Header.PreHash != chain.latestBlock.Hash && coming.Header.TotalQN == chain.latestBlock.TotalQN && @select(ghost(hashKnown), bytes(coming.Header.PreHash)) && @select(ghost(hgtKnown), @select(ghost(hashHeight), bytes(coming.Header.PreHash)) + 1) && (@select(ghost(hgtPv), @select(ghost(hashHeight), bytes(coming.Header.PreHash)) + 1) > big(coming.Header.ProveValue) || (@select(ghost(hgtPv), @select(ghost(hashHeight), bytes(coming.Header.PreHash)) + 1) == big(coming.Header.ProveValue) && @select(ghost(hgtHash), @select(ghost(hashHeight), bytes(coming.Header.PreHash)) + 1) > @beval(bytes(coming.Header.Hash))))) ==> chain.latestBlock == old(chain.latestBlock) && result != types.AddBlockSucc
